@@ -1176,6 +1176,27 @@ ecdsa_key_gen_le(ec_curve_p curve, uint8_t *rnd, size_t rnd_size,
 	return (0);
 }
 
+/* FIPS 186-4 6.4 / SEC 1 4.1.3: e = leftmost min(8*hash_size, bitlen(n)) bits of the hash. */
+static inline int
+ecdsa_hash_import(ec_curve_p curve, int le, bn_p e, uint8_t *hash, size_t hash_size) {
+	size_t nbits, hlen;
+
+	if (EC_CURVE_ALGO_ECDSA != curve->algo) {
+		hlen = MIN(hash_size, EC_CURVE_CALC_BYTES(curve));
+		return ((0 != le) ? bn_import_le_bin(e, hash, hlen) : bn_import_be_bin(e, hash, hlen));
+	}
+	nbits = bn_calc_bits(&curve->n);
+	hlen = MIN(hash_size, ((nbits + 7) / 8));
+	if (0 != le) {
+		BN_RET_ON_ERR(bn_import_le_bin(e, (hash + (hash_size - hlen)), hlen));
+	} else {
+		BN_RET_ON_ERR(bn_import_be_bin(e, hash, hlen));
+	}
+	if ((8 * hlen) > nbits)
+		bn_r_shift(e, ((8 * hlen) - nbits));
+	return (0);
+}
+
 /* Signing */
 /* 
  * Input:
@@ -1293,7 +1314,7 @@ ecdsa_sign_be(ec_curve_p curve, uint8_t *hash, size_t hash_size,
 	BN_RET_ON_ERR(bn_init(&s, bits));
 	BN_RET_ON_ERR(bn_init(&d, bits));
 	/* HASH import. */
-	BN_RET_ON_ERR(bn_import_be_bin(&r, hash, MIN(hash_size, bytes)));
+	BN_RET_ON_ERR(ecdsa_hash_import(curve, 0, &r, hash, hash_size));
 	/* Random number. */
 	BN_RET_ON_ERR(bn_import_be_bin(&s, rnd, bytes));
 	/* Key import. */
@@ -1332,7 +1353,7 @@ ecdsa_sign_le(ec_curve_p curve, uint8_t *hash, size_t hash_size,
 	BN_RET_ON_ERR(bn_init(&s, bits));
 	BN_RET_ON_ERR(bn_init(&d, bits));
 	/* HASH import. */
-	BN_RET_ON_ERR(bn_import_le_bin(&r, hash, MIN(hash_size, bytes)));
+	BN_RET_ON_ERR(ecdsa_hash_import(curve, 1, &r, hash, hash_size));
 	/* Random number. */
 	BN_RET_ON_ERR(bn_import_le_bin(&s, rnd, bytes));
 	/* Key import. */
@@ -1474,7 +1495,7 @@ ecdsa_verify_be(ec_curve_p curve,
 	BN_RET_ON_ERR(ecdsa_pub_key_import_be(curve, pub_key_x, pub_key_y,
 	    pub_key_size, &Q));
 	/* Import Hash. */
-	BN_RET_ON_ERR(bn_import_be_bin(&e, hash, MIN(hash_size, bytes)));
+	BN_RET_ON_ERR(ecdsa_hash_import(curve, 0, &e, hash, hash_size));
 	/* Import r.*/
 	BN_RET_ON_ERR(bn_import_be_bin(&r, sign_r, sign_size));
 	/* Import s.*/
@@ -1511,7 +1532,7 @@ ecdsa_verify_le(ec_curve_p curve,
 	BN_RET_ON_ERR(ecdsa_pub_key_import_le(curve, pub_key_x, pub_key_y,
 	    pub_key_size, &Q));
 	/* Import Hash. */
-	BN_RET_ON_ERR(bn_import_le_bin(&e, hash, MIN(hash_size, bytes)));
+	BN_RET_ON_ERR(ecdsa_hash_import(curve, 1, &e, hash, hash_size));
 	/* Import r.*/
 	BN_RET_ON_ERR(bn_import_le_bin(&r, sign_r, sign_size));
 	/* Import s.*/
@@ -1647,7 +1668,7 @@ ecdsa_verify_priv_key_be(ec_curve_p curve,
 	BN_RET_ON_ERR(bn_init(&s, bits));
 	BN_RET_ON_ERR(bn_init(&d, bits));
 	/* Import Hash. */
-	BN_RET_ON_ERR(bn_import_be_bin(&e, hash, MIN(hash_size, bytes)));
+	BN_RET_ON_ERR(ecdsa_hash_import(curve, 0, &e, hash, hash_size));
 	/* Import r.*/
 	BN_RET_ON_ERR(bn_import_be_bin(&r, sign_r, sign_size));
 	/* Import s.*/
@@ -1682,7 +1703,7 @@ ecdsa_verify_priv_key_le(ec_curve_p curve,
 	BN_RET_ON_ERR(bn_init(&s, bits));
 	BN_RET_ON_ERR(bn_init(&d, bits));
 	/* Import Hash. */
-	BN_RET_ON_ERR(bn_import_le_bin(&e, hash, MIN(hash_size, bytes)));
+	BN_RET_ON_ERR(ecdsa_hash_import(curve, 1, &e, hash, hash_size));
 	/* Import r.*/
 	BN_RET_ON_ERR(bn_import_le_bin(&r, sign_r, sign_size));
 	/* Import s.*/
@@ -1952,7 +1973,7 @@ ecdsa_recover_pub_key_from_sign_be(ec_curve_p curve,
 		return (EINVAL);
 	/* HASH import. */
 	BN_RET_ON_ERR(bn_init(&e, bits));
-	BN_RET_ON_ERR(bn_import_be_bin(&e, hash, MIN(hash_size, bytes)));
+	BN_RET_ON_ERR(ecdsa_hash_import(curve, 0, &e, hash, hash_size));
 	BN_RET_ON_ERR(bn_mod_reduce(&e, &curve->n, &curve->n_mod_rd_data));
 
 	BN_RET_ON_ERR(bn_init(&x, bits));
